@@ -115,17 +115,24 @@ class Closure:
         return self.ev.eval(self.node.body, env)
 
 
+_GEN: Dict[int, bool] = {}
+
+
 class FunctionValue:
     """a function of the analysed module, interpreted on abstract arguments"""
 
-    def __init__(self, fn: ast.FunctionDef, ev: "Evaluator", genv: Dict[str, Any], self_obj: Any = None):
-        self.fn, self.ev, self.genv, self.self_obj = fn, ev, genv, self_obj
+    def __init__(self, fn: ast.FunctionDef, ev: "Evaluator", genv: Dict[str, Any], self_obj: Any = None,
+                 owner: Optional[str] = None):
+        self.fn, self.ev, self.genv, self.self_obj, self.owner = fn, ev, genv, self_obj, owner
 
     def __call__(self, *args: Any, **kwargs: Any) -> Any:
         fn = self.fn
         env = dict(self.genv)
         if self.self_obj is not None:
             args = (self.self_obj,) + tuple(args)
+            env["__self__"] = self.self_obj
+        if self.owner is not None:
+            env["__owner__"] = self.owner
         params = [a.arg for a in fn.args.posonlyargs + fn.args.args]
         defaults = fn.args.defaults
         dmap = {}
@@ -148,9 +155,12 @@ class FunctionValue:
                 env[p] = self.ev.eval(dmap[p], self.genv)
             else:
                 raise Undecided(f"missing argument {p} for {fn.name}")
-        for st in ast.walk(fn):
-            if isinstance(st, (ast.Yield, ast.YieldFrom)):
-                raise Undecided(f"generator function {fn.name}")
+        isgen = _GEN.get(id(fn))
+        if isgen is None:
+            isgen = any(isinstance(st, (ast.Yield, ast.YieldFrom)) for st in ast.walk(fn))
+            _GEN[id(fn)] = isgen
+        if isgen:
+            raise Undecided(f"generator function {fn.name}")
         self.ev.depth += 1
         if self.ev.depth > 40:
             raise Undecided("recursion depth")
@@ -202,6 +212,10 @@ class Evaluator:
             if d is not None and d in env:
                 return env[d]
             base = self.eval(n.value, env)
+            if isinstance(base, slice) and n.attr in ("start", "stop", "step"):
+                return getattr(base, n.attr)
+            if isinstance(base, slice) and n.attr == "indices":
+                return lambda size: base.indices(size) if isinstance(size, int) else (_ for _ in ()).throw(Undecided("indices"))
             if isinstance(base, Obj):
                 if n.attr in base.attrs:
                     return base.attrs[n.attr]
@@ -263,8 +277,20 @@ class Evaluator:
             return last if len(n.ops) == 1 else True
         if isinstance(n, ast.IfExp):
             return self.eval(n.body if self.truth(self.eval(n.test, env)) else n.orelse, env)
+        if isinstance(n, ast.Slice):
+            return slice(
+                None if n.lower is None else self.eval(n.lower, env),
+                None if n.upper is None else self.eval(n.upper, env),
+                None if n.step is None else self.eval(n.step, env),
+            )
         if isinstance(n, ast.Subscript):
             base = self.eval(n.value, env)
+            if isinstance(base, Obj) and base.resolver is not None:
+                self._enter()
+                try:
+                    return base.resolver(base, "__getitem__")(self.eval(n.slice, env))
+                finally:
+                    self.depth -= 1
             if isinstance(n.slice, ast.Slice):
                 lo = None if n.slice.lower is None else self.eval(n.slice.lower, env)
                 hi = None if n.slice.upper is None else self.eval(n.slice.upper, env)
@@ -277,6 +303,8 @@ class Evaluator:
                 if idx in base:
                     return base[idx]
                 raise Undecided(f"missing key {idx!r}")
+            if isinstance(base, (list, tuple, str)) and isinstance(idx, slice):
+                return base[idx]
             if isinstance(base, (list, tuple, str)) and isinstance(idx, int) and not isinstance(idx, bool):
                 if -len(base) <= idx < len(base):
                     return base[idx]
@@ -311,9 +339,17 @@ class Evaluator:
         rec(0, env)
         return out
 
+    def _enter(self) -> None:
+        self.depth += 1
+        if self.depth > 60:
+            self.depth -= 1
+            raise Undecided("recursion depth")
+
     def iterate(self, v: Any) -> List[Any]:
-        if isinstance(v, (list, tuple, range)):
+        if isinstance(v, (list, tuple, range, set)):
             return list(v)
+        if isinstance(v, Obj) and v.resolver is not None:
+            return self.iterate(v.resolver(v, "__iter__")())
         if isinstance(v, dict):
             return list(v)
         raise Undecided("iteration over abstract value")
@@ -428,6 +464,13 @@ class Evaluator:
             return self.isinstance(self.eval(n.args[0], env), n.args[1], env)
         if d in ("cast", "typing.cast") and len(n.args) == 2:
             return self.eval(n.args[1], env)
+        if d == "len" and len(n.args) == 1:
+            v = self.eval(n.args[0], env)
+            if isinstance(v, Obj) and v.resolver is not None:
+                return v.resolver(v, "__len__")()
+            return _len(v)
+        if d == "super" and "__super__" in self.funcs:
+            return self.funcs["__super__"](env.get("__self__"), env.get("__owner__"))
         f = None
         if d is not None and d in env and callable(env[d]):
             f = env[d]
@@ -470,6 +513,12 @@ class Evaluator:
                     return True
             elif nm == "str":
                 if isinstance(v, str):
+                    return True
+            elif nm == "slice":
+                if isinstance(v, slice):
+                    return True
+            elif nm in ("Iterable", "Sequence"):
+                if isinstance(v, (list, tuple, str)) or (isinstance(v, Obj) and v.resolver is not None and nm == "Iterable"):
                     return True
         return False
 
@@ -627,6 +676,10 @@ BUILTINS: Dict[str, Callable[..., Any]] = {
     "str": lambda x: str(x) if isinstance(x, (int, str)) and not isinstance(x, bool) else (_ for _ in ()).throw(Undecided("str()")),
     "dict": lambda *a: dict(*a),
     "set": lambda *a: set(*a),
+    "slice": lambda *a: slice(*a),
+    "iter": lambda x: list(x),
+    "itertools.chain": lambda *xs: [y for x in xs for y in x],
+    "functools.reduce": lambda f, xs, *init: __import__("functools").reduce(f, list(xs), *init),
     "cast": lambda t, v: v,
     "typing.cast": lambda t, v: v,
 }
